@@ -882,6 +882,10 @@ def indexer_get(it, ix, idx, node, fr):
                 if c.is_full():
                     return f
                 if ix.kind == "iloc":
+                    if f.order is None and getattr(f, "order_from_input", False):
+                        from .values import ColumnOrderUnknown
+                        raise ColumnOrderUnknown("columns are taken by position (iloc[:, a:b]) from a table whose column order is the input "
+                                                 "file's: which columns are meant depends on how the file happens to be laid out", node)
                     if f.order is None:
                         raise Unsupported("iloc column slice on a table of unknown column order", node)
                     lo = pyval(c.lower) if c.lower is not None else None
@@ -892,6 +896,19 @@ def indexer_get(it, ix, idx, node, fr):
                     raise Unsupported("label slice on a table of unknown column order", node)
                 i0, i1 = f.order.index(lo), f.order.index(hi)
                 return frame_select(it, f, f.order[i0:i1 + 1], node)
+            if getattr(c, "colmask", None) is not None and c.colmask[0] is base:
+                names_ = c.colmask[1]
+                g = f.clone()
+                g.cols = {}
+                for n_ in names_:
+                    try:
+                        g.cols[n_] = f.col(n_)
+                    except KeyError:
+                        pass
+                g.order = [n_ for n_ in f.order if n_ in names_] if f.order is not None else None
+                g.open = False
+                g.order_from_input = f.order is None
+                return g
             sel = _colsel(c)
             if sel is None and isinstance(c, Seq) and all(is_pyconst(x) for x in c.items) and c.items:
                 sel = [pyval(x) for x in c.items]
